@@ -114,6 +114,21 @@ def prod_compare(plugin, sub, lines, starts, impl):
     exe = PROD["exe"]
     if exe is None or len(PROD["fails"]) >= 4:
         return
+    flt = getattr(plugin, "PROD_CASE", None)
+    if flt is not None:
+        # only the cases that mean something without the hook points (free-running ops)
+        keep = [k for k in range(len(sub)) if flt(sub[k])]
+        if not keep:
+            return
+        impl2 = []
+        for k in keep:
+            e = starts[k + 1] if k + 1 < len(starts) else len(lines)
+            impl2.extend(impl[starts[k]:e])
+        sub = [sub[k] for k in keep]
+        lines, starts = flatten(sub)
+        impl = impl2
+        if len(impl) != len(lines):
+            return
     out, crash, err = core.run_impl(exe, lines, timeout=getattr(plugin, "HARNESS_TIMEOUT", 600))
     PROD["lines"] += min(len(out), len(lines))
     n = min(len(out), len(impl))
